@@ -21,6 +21,7 @@ import tty as _real_tty
 import types
 
 from .core import EventLog, HarnessError, Livelock, Quiescent
+from .core import arm_spin_timer as _arm_spin_timer
 
 FAKE_FD_BASE = 1_000_000
 
@@ -420,6 +421,7 @@ class World:
             keep_log = bool(_real_os.environ.get("VERIF_KEEP_LOG"))
         self.log = EventLog(self.clock, keep=keep_log)
         self.fds: dict[int, FakeFile] = {}
+        self.low_fds: set[int] = set()
         self._next_fd = FAKE_FD_BASE
         self.ext: list[tuple[float, int, str, object]] = []
         self._ext_seq = 0
@@ -455,6 +457,14 @@ class World:
         self._next_fd += 1
         self.fds[fd] = obj
         return fd
+
+    def remap_fd(self, obj: FakeFile, number: int) -> None:
+        """Give a fake file a small descriptor number (0 = the program's standard input): code that tests a descriptor
+        for truthiness instead of `is not None` only goes wrong for that number."""
+        self.fds.pop(obj.fd, None)
+        obj.fd = number
+        self.fds[number] = obj
+        self.low_fds.add(number)
 
     def fd_name(self, fd: int) -> str:
         o = self.fds.get(fd)
@@ -518,6 +528,7 @@ class World:
         """Wait until ready_fn() is truthy or the timeout expires, jumping the clock.
         Raises Quiescent when neither can ever happen."""
         self.count_seam()
+        _arm_spin_timer()
         if timeout is not None and timeout < 0:
             timeout = 0.0
         seq = self.log.add("block", [timeout if timeout is not None else "inf", list(watched)])
@@ -571,7 +582,8 @@ _INSTALLED = False
 
 
 def _is_fake(fd) -> bool:
-    return isinstance(fd, int) and fd >= FAKE_FD_BASE
+    # (a run may also map a LOW descriptor number - 0, standard input - onto a fake file: World.remap_fd)
+    return isinstance(fd, int) and (fd >= FAKE_FD_BASE or (_WORLD is not None and fd in _WORLD.low_fds))
 
 
 def _obj(fd: int) -> FakeFile:
